@@ -16,6 +16,7 @@ import (
 	"flag"
 	"fmt"
 	"go/ast"
+	"go/build"
 	"go/importer"
 	"go/parser"
 	"go/printer"
@@ -312,6 +313,10 @@ func main() {
 		var names []string
 		for _, e := range ents {
 			if !strings.HasSuffix(e.Name(), ".go") || strings.HasSuffix(e.Name(), "_test.go") {
+				continue
+			}
+			// honour build constraints (GOOS/GOARCH/tags of the host build), as the compiler will
+			if ok, err := build.Default.MatchFile(dir, e.Name()); err != nil || !ok {
 				continue
 			}
 			f, err := parser.ParseFile(fset, filepath.Join(dir, e.Name()), nil, parser.ParseComments)
